@@ -4,6 +4,7 @@
 //! trusted: assume_specification for core::cmp::max / core::cmp::min / Result::unwrap_or (std definitions); trait FeeEstimator is reduced to get_est_sat_per_1000_weight with an unconstrained result (any estimator); trait Logger empty (R3 removes log statements)
 //! assume: compute_package_feerate: the fee estimator never returns more than u32::MAX/5 = 858_993_459 sat/kW (`feerate_estimate * 5` is computed in u32; observation O4 in DESIGN)
 //! trusted: payload structs of PackageSolvingData (RevokedOutput, ... HolderHTLCOutput) are skeletons keeping the fields the code reads; PackageSolvingData::amount() is external_body with an uninterpreted result; BitcoinOutPoint opaque; AggregationCluster is extracted, its derived == is modelled as structural equality
+//! trusted: R15 (deep slice): handle_channel_close (async, wallet coin selection, PSBTs): the unit extracts the test that decides whether the pre-signed commitment is broadcast as is, verbatim, as a function of (commitment weight, its fee, the target feerate), checked against the proved contract of compute_feerate_sat_per_1000_weight; coin selection and the anchor transaction are dropped and not claimed; Transaction/Weight are stubs {weight}
 //! trusted: R6: in merge_package `for (k, v) in merge_from.inputs.drain(..) { self.inputs.push((k, v)); }` becomes `self.inputs.append(&mut merge_from.inputs)` (same effect on both vectors); R5: the `mut` by-value parameter is rebound to a local
 //! trusted: R6: `.iter().find_map(|(_, outp)| V)` and `.iter().filter_map(|(_, outp)| V).max()` in PackageTemplate::signed_locktime / package_locktime become index loops carrying V verbatim
 //! assume: HolderHTLCOutput invariant (preimage is Some ==> cltv_expiry == 0, established by its constructors, checked by a debug_assert in the source); PackageTemplate::signed_locktime is extracted with cfg(debug_assertions) off (its debug-only consistency loop is dropped)
@@ -47,6 +48,30 @@ impl<F: FeeEstimator> LowerBoundedFeeEstimator<F> {
     weight > 0, fee_sat <= 21_000_000_0000_0000,
 //@ensures A
     r as int == (if fee_sat as int * 1000 / weight as int > u32::MAX { u32::MAX as int } else { fee_sat as int * 1000 / weight as int })
+//@end
+
+// ---- anchor channels: is the pre-signed commitment's own fee enough, or must it be bumped through its anchor (deep R15 slice of BumpTransactionEventHandler::handle_channel_close) ----
+pub struct WeightStub { pub wu: u64 }
+impl WeightStub { #[verifier::external_body] pub fn to_wu(&self) -> (r: u64) ensures r == self.wu { unimplemented!() } }
+pub struct TransactionStub { pub w: WeightStub }
+impl TransactionStub { #[verifier::external_body] pub fn weight(&self) -> (r: WeightStub) ensures r == self.w { unimplemented!() } }
+//@extract lightning/src/events/bump_transaction/mod.rs :: impl BumpTransactionEventHandler :: fn handle_channel_close
+//@slice R15
+    let commitment_tx_feerate_sat_per_1000_weight = $fr; if $c:cond { $b:any return Ok(()); }
+//@with
+    fn commitment_needs_no_bump(commitment_tx: &TransactionStub, commitment_tx_fee_sat: u64, package_target_feerate_sat_per_1000_weight: u32) -> bool {
+        let commitment_tx_feerate_sat_per_1000_weight = $fr;
+        $c
+    }
+//@ret r
+//@requires
+    commitment_tx.w.wu > 0, commitment_tx_fee_sat <= 21_000_000_0000_0000,
+//@ensures P C07 a-commitment-is-broadcast-without-an-anchor-bump-only-if-its-own-feerate-already-meets-the-target
+    r <==> (if commitment_tx_fee_sat as int * 1000 / commitment_tx.w.wu as int > u32::MAX { u32::MAX as int } else { commitment_tx_fee_sat as int * 1000 / commitment_tx.w.wu as int }) >= package_target_feerate_sat_per_1000_weight,
+//@mutant underpaying_commitment_broadcast_unbumped
+    commitment_tx_feerate_sat_per_1000_weight >= package_target_feerate_sat_per_1000_weight
+//@with
+    commitment_tx_feerate_sat_per_1000_weight * 2 >= package_target_feerate_sat_per_1000_weight
 //@end
 
 pub open spec fn valid_w(w: u64) -> bool { 100 <= w <= 4_000_000 }
